@@ -164,6 +164,57 @@ def run(ctx):
                    "guard(s) leading to UnderSampling: %s; remove_protection_of_*_packet does split_at_mut(4) and "
                    "sample[..16] without its own check, so a smaller threshold is an out-of-bounds panic on an "
                    "unauthenticated datagram" % [(x[0], x[1]) for x in r])
+    # ---------------------------------------------------------------- R7: panicking slice APIs on the decode slice
+    ctx.rule("R7", "slicing by length on the decode slice: every call to a slice API that panics when the slice is too short "
+                   "(split_at, copy_from_slice, split_to, indexing by range, try_into to an array + unwrap) is dominated by a "
+                   "length comparison of that slice, or listed in the reviewed table with the reason the length is known")
+    SLICE_RX = re.compile(r"slice::<impl \[T\]>::(split_at|split_at_mut|copy_from_slice|split_first|split_last)$|"
+                          r"ops::index::Index(Mut)?<.*> for .*>::index(_mut)?$|BytesMut::(split_to|advance|split_off)$|"
+                          r"bytes::Bytes::(split_to|slice|advance|split_off)$|Buf::(advance|copy_to_slice)$")
+    SLICE_TABLE = {
+        "qbase::cid::connection_id::ConnectionId::from_slice": "callers bound the length to <= 20 first (be_connection_id_with_len, be_parameter_value); see R2 table",
+        "<qbase::cid::connection_id::ConnectionId as core::ops::deref::Deref>::deref": "type invariant len <= 20, established by from_slice/be_connection_id",
+        "qbase::frame::io::complete_frame::{closure#0}": "offsets are `raw.len() - remain.len()` of the same buffer; body lengths come from nom take(len) that already succeeded",
+        "qbase::frame::path_challenge::PathChallengeFrame::from_slice": "fed by take(8)",
+        "qbase::frame::path_response::PathResponseFrame::from_slice": "fed by take(8)",
+        "qbase::packet::header::long::Retry::new": "integrity tag fed by take(16)",
+        "qbase::packet::header::long::io::be_retry": "indexing a zero-length array with RangeFull",
+        "qbase::packet::io::be_payload": "guarded: payload_len compared with remain.len() (IncompletePacket) before split_to / indexing",
+        "qbase::param::preferred_address::be_preferred_address::{closure#0}": "fed by take(4)/take(16) inside the tuple parser",
+        "qbase::param::preferred_address::be_preferred_address::{closure#1}": "fed by take(4)/take(16) inside the tuple parser",
+        "qtraversal::nat::msg::TransactionId::from_slice": "fed by the 16-byte transaction id split off in be_packet",
+    }
+    slice_sites = {}
+    for b in ws:
+        for i, t in b.calls():
+            if not SLICE_RX.search(callee(t)):
+                continue
+            api = callee(t).split("::")[-1]
+            # structural discharge: a dominating switch fed by a comparison involving a len() of a slice local
+            guarded = False
+            for sb in b.live_blocks():
+                tt = b.term(sb)
+                if tt["t"] != "switch" or not b.dominates(sb, i):
+                    continue
+                pl = op_place(tt["on"])
+                if not pl or len(pl) != 1:
+                    continue
+                for (bb, jj, rv) in b.defs_of(pl[0]):
+                    if jj != "term" and rv[0] == "bin" and rv[1] in ("Lt", "Le", "Gt", "Ge"):
+                        for o in (rv[2], rv[3]):
+                            if any(og[0] == "call" and re.search(r"::len$", callee(og[2])) for og in local_origins(b, o)) or \
+                                    any(og[0] == "rv" and og[1][0] in ("len",) for og in local_origins(b, o)):
+                                guarded = True
+            slice_sites.setdefault(b.short, []).append((api, guarded, t["line"]))
+    ctx.stats["R7.sites"] = {k: [(a, g) for a, g, _ in v] for k, v in sorted(slice_sites.items())}
+    ctx.floor("R7", "functions with length-sensitive slice operations on the decode slice", len(slice_sites), 10)
+    for fn, lst in sorted(slice_sites.items()):
+        allg = all(g for _, g, _ in lst)
+        reason = SLICE_TABLE.get(fn)
+        b = prog.by_short[fn][0]
+        ctx.ob("R7", "%s|%s" % (fn, "+".join(sorted(set(a for a, _, _ in lst)))), allg or reason is not None, b.where(lst[0][2]),
+               "%d call(s) %s; dominated by a length comparison: %s; reviewed reason: %s" % (
+                   len(lst), sorted(set(a for a, _, _ in lst)), allg, reason or "NONE — an attacker-chosen short input panics the task here"))
     # ---------------------------------------------------------------- R6: dispatcher covers what the decoder admits
     ctx.rule("R6", "every frame kind that FrameType::belongs_to admits into a packet type has a non-panicking arm in that "
                    "space's frame dispatcher (the Initial and Handshake dispatchers end in `_ => unreachable!()`)")
